@@ -159,13 +159,13 @@ PROPS.update({
     },
     "C11": {
         "level": "proof",
-        "lean_modules": ["ApdVerif.Props.C11", "ApdVerif.Props.C11Settle", "ApdVerif.Props.C11Sqrt", "ApdVerif.Props.C11SqrtExact", "ApdVerif.Props.C11Cbrt"],
+        "lean_modules": ["ApdVerif.Props.C11", "ApdVerif.Props.C11Settle", "ApdVerif.Props.C11Sqrt", "ApdVerif.Props.C11SqrtExact", "ApdVerif.Props.C11Cbrt", "ApdVerif.Props.C11CbrtObs"],
         "streams": [{"stream": "roots", "n": {"quick": 20000, "thorough": 400000}},
                     # the same oracles judge every aliased outcome (d == x, heap-backed operands, junk destinations)
                     {"stream": "alias", "ops": ["sqrt", "cbrt"], "n": {"quick": 3000, "thorough": 40000}, "projections": []}],
         "projections": ["value", "repr", "flags", "err", "iter"],
         "oracle_tags": ["C11"],
-        "explanation": "Sqrt: correctness theorem for every operand incl. Inexact iff not exactly representable (C11_sqrt_correct_partial, C11_sqrt_inexact_iff; side condition proved necessary by C11_sqrt_sys). Cbrt: within one ulp and exact on perfect cubes whenever the call returns without error (C11_cbrt_within_ulp, C11_cbrt_exact). Also: integer-root oracles, specSqrt is the half-even nearest multiple stated on squares, the Cbrt ulp test, perfect-cube detection, loop termination, special operands. NOT proved: that Cbrt always returns without error (convergence within Precision+11 rounds). The executable models are correspondence-checked (incl. the Sqrt iterate at an observation point) and every generated case is judged by the proved oracles",
+        "explanation": "Sqrt: correctness theorem for every operand incl. Inexact iff not exactly representable (C11_sqrt_correct_partial, C11_sqrt_inexact_iff; side condition proved necessary by C11_sqrt_sys). Cbrt: within one ulp and exact on perfect cubes whenever the call returns without error (C11_cbrt_within_ulp, C11_cbrt_exact). Also: integer-root oracles, specSqrt is the half-even nearest multiple stated on squares, the Cbrt ulp test, perfect-cube detection, loop termination, special operands. NOT proved: that Cbrt always returns without error (convergence within Precision+11 rounds). The executable models are correspondence-checked (incl. the Sqrt iterate and the last Cbrt iterate at observation points inside the real loops; C11_cbrt_obs_factor: the model's result is computed from exactly that iterate) and every generated case is judged by the proved oracles",
     },
     "C13": {
         "level": "proof",
@@ -198,10 +198,12 @@ PROPS.update({
 })
 PROPS["C08"] = {
     "level": "proof",
-    "lean_modules": ["ApdVerif.Props.C08", "ApdVerif.Props.TransLog"],
+    "lean_modules": ["ApdVerif.Props.C08", "ApdVerif.Props.TransLog", "ApdVerif.Props.C09"],
     "theorem_prefixes": ["C08_", "C08T_"],
     "streams": [{"stream": "specials", "n": {"quick": 20000, "thorough": 300000}},
                 {"stream": "arith", "ops": ["add", "sub"], "n": {"quick": 8000, "thorough": 100000}},
+                # sign of zero results of the integral roundings (C08_ceil_zero_sign, C08_floor_zero_sign)
+                {"stream": "arith", "ops": ["ceil", "floor", "rtiv", "rtie"], "n": {"quick": 6000, "thorough": 80000}},
                 {"stream": "alias", "n": {"quick": 12000, "thorough": 150000}, "projections": []}],
     "projections": ["value", "repr", "flags", "err"],
     "oracle_tags": ["C08"],
